@@ -71,7 +71,7 @@ var faultMenu = map[string][]string{
 var holdSites = []string{siteToReceive, siteFromFetch, siteQDelete}
 
 type step struct {
-	Kind string `json:"kind"` // upload | fault | hold | release | restart | pause
+	Kind string `json:"kind"` // upload | fault | hold | release | restart | pause | settle
 	Blob int    `json:"blob,omitempty"`
 	Site string `json:"site,omitempty"`
 	Beh  string `json:"behaviour,omitempty"`
@@ -93,6 +93,8 @@ func (s step) String() string {
 		return "restart"
 	case "pause":
 		return fmt.Sprintf("pause %dms", s.Ms)
+	case "settle":
+		return "settle"
 	}
 	return "?" + s.Kind
 }
@@ -100,7 +102,7 @@ func (s step) String() string {
 type scenario struct {
 	Pool       []vgen.Blob
 	CopierPool int
-	Mode       string // "queue" | "fullSyncOnStart" | "blockingFullSyncOnStart"
+	Mode       string // "queue" | "fullSyncOnStart" | "blockingFullSyncOnStart" | "validateOnStart"
 	Dest       string // "store" (harness store) | "index" (a real index.Index over a harness KV; "to.receive" then means the index's CommitBatch)
 	Steps      []step
 	Wake       bool // after the last fault: upload one more fresh blob (wakes the copy loop); false = rely on the loop's own timer
@@ -472,6 +474,8 @@ func (r *runner) start(ep *epoch) error {
 			conf["fullSyncOnStart"] = true
 		case "blockingFullSyncOnStart":
 			conf["blockingFullSyncOnStart"] = true
+		case "validateOnStart":
+			conf["validateOnStart"] = true // background source-minus-destination scan that enqueues what is missing
 		}
 		type built struct {
 			h   http.Handler
@@ -695,6 +699,29 @@ func (r *runner) upload(ep *epoch, b vgen.Blob, what string) {
 	r.tracef("%s %s -> ack", what, b.Ref)
 }
 
+// settle gives the copier time to do what it can do right now: it returns when
+// no lower-layer call happened for ~1 ms (or after 50 ms). Only coverage depends
+// on it, no verdict does.
+func (r *runner) settle(ep *epoch) {
+	t0 := time.Now()
+	last, same := -1, 0
+	for time.Since(t0) < 50*time.Millisecond {
+		r.mu.Lock()
+		calls, infl := ep.calls, ep.inflight
+		r.mu.Unlock()
+		if calls == last && infl == 0 {
+			same++
+			if same >= 3 {
+				return
+			}
+		} else {
+			same = 0
+		}
+		last = calls
+		time.Sleep(400 * time.Microsecond)
+	}
+}
+
 func (r *runner) restart() error {
 	old := r.ep
 	r.mu.Lock()
@@ -870,6 +897,8 @@ func run(sc *scenario) (res *result) {
 			r.tracef("step %d %s", i, st)
 		case "pause":
 			time.Sleep(time.Duration(st.Ms) * time.Millisecond)
+		case "settle":
+			r.settle(ep)
 		case "restart":
 			if err := r.restart(); err != nil {
 				r.stopWith(err)
